@@ -2,6 +2,7 @@ package props
 
 import (
 	"fmt"
+	"strings"
 	"testing"
 
 	jd "github.com/josephburnett/jd/v2"
@@ -140,6 +141,9 @@ func genC11(t *rapid.T) PairCase {
 	if gen.Chance(t, "emptyObjs", 25) {
 		a = sprinkleEmptyObjects(t, a)
 		b = sprinkleEmptyObjects(t, b)
+	}
+	if gen.Chance(t, "pathTwins", 10) {
+		a, b = gen.PathTwins(t, a, b, p)
 	}
 	return PairCase{A: val.JSON(a), B: val.JSON(b), Opts: opts}
 }
@@ -514,3 +518,126 @@ func genC12Chain(t *rapid.T) MergeChainCase {
 func init() { Register("C12", "chain", checkC12Chain) }
 
 func TestC12Chain(t *testing.T) { RunRandom(t, "C12", "chain", genC12Chain, checkC12Chain) }
+
+// ---- C12 through the binaries: jd -f merge -p PATCH TARGET (optionally -yaml)
+
+type MergeCLICase struct {
+	Target string `json:"target"`
+	Patch  string `json:"patch"`
+	Yaml   bool   `json:"yaml"`
+	Stdin  bool   `json:"stdin"`
+	Bin    string `json:"bin"`
+}
+
+func checkC12CLI(c MergeCLICase, r *rec.Rec) error {
+	if !haveCLI() {
+		return inconclusive{"jd binaries not built"}
+	}
+	tv, err := val.Parse(c.Target)
+	if err != nil || val.IsVoid(tv) {
+		return fmt.Errorf("bad case: %v", err)
+	}
+	pv, err := val.Parse(c.Patch)
+	if err != nil || val.IsVoid(pv) {
+		return fmt.Errorf("bad case: %v", err)
+	}
+	viol := rec.Violated
+	_, targetIsObj := tv.(map[string]val.V)
+	po, patchIsObj := pv.(map[string]val.V)
+	switch {
+	case pv == nil:
+		viol = func(f string, a ...interface{}) error { return rec.Known("D16", f, a...) }
+	case patchIsObj && len(po) == 0 && !targetIsObj:
+		viol = func(f string, a ...interface{}) error { return rec.Known("D17", f, a...) }
+	}
+	want := ref.MergePatch(tv, pv)
+	dir, cleanup := caseDir()
+	defer cleanup()
+	writeFile(dir, "p", c.Patch)
+	args := []string{"-f=merge", "-p"}
+	targetText := c.Target
+	if c.Yaml {
+		args = append(args, "-yaml")
+		targetText = ref.YAMLEmit(tv)
+	}
+	var res CLIResult
+	if c.Stdin {
+		res = runCLI(c.Bin, append(args, "p"), &targetText, dir)
+	} else {
+		writeFile(dir, "t", targetText)
+		res = runCLI(c.Bin, append(args, "p", "t"), nil, dir)
+	}
+	if err := cliTrouble(res); err != nil {
+		return err
+	}
+	desc := fmt.Sprintf("%s %s p t (p=%s t=%s)", c.Bin, strings.Join(args, " "), c.Patch, targetText)
+	if res.Status != 0 {
+		return viol("%s exits %d: %s", desc, res.Status, res.Stderr)
+	}
+	var got val.V
+	if c.Yaml {
+		n, err := jd.ReadYamlString(res.Stdout)
+		if err != nil {
+			return viol("%s prints unreadable YAML %q: %v", desc, res.Stdout, err)
+		}
+		got, err = val.Parse(n.Json())
+		if err != nil {
+			return fmt.Errorf("harness: %v", err)
+		}
+	} else {
+		got, err = val.Parse(res.Stdout)
+		if err != nil {
+			return viol("%s prints unreadable JSON %q", desc, res.Stdout)
+		}
+	}
+	if !val.Equal(got, want, val.List) {
+		return viol("%s prints %s but MergePatch gives %s", desc, showText(res.Stdout), val.JSON(want))
+	}
+	cls := mergePatchClasses(pv)
+	nontrivial := false
+	for _, k := range cls {
+		if k == "patch-has-null" || k == "patch-has-nested-{}" {
+			nontrivial = true
+		}
+	}
+	if c.Yaml {
+		cls = append(cls, "yaml")
+	}
+	if c.Stdin {
+		cls = append(cls, "stdin")
+	}
+	cls = append(cls, "bin="+c.Bin)
+	r.Case(fmt.Sprintf("%v", c), nontrivial, cls...)
+	if nontrivial {
+		r.Sample(c)
+	}
+	return nil
+}
+
+func genC12CLI(t *rapid.T) MergeCLICase {
+	p := gen.Profile{MaxDepth: 3, NastyKeys: gen.Chance(t, "nasty", 40), Payload: true, Floats: gen.Chance(t, "floats", 40)}
+	var target val.V
+	if gen.Chance(t, "objectTarget", 75) {
+		target = gen.Object(t, p, 0)
+	} else {
+		target = gen.Doc(t, p)
+	}
+	patch := genMergeDoc(t, target)
+	if po, ok := patch.(map[string]val.V); ok && gen.Chance(t, "payloadMember", 50) {
+		// values on which JSON and YAML readers disagree, and text a
+		// formatting verb would mangle
+		po[gen.Pick(t, "pk", []string{"p", "100%", "a"})] = gen.Pick(t, "pv", []val.V{
+			"100%", "%d %s %v", "\u007f", "\u0085", "a\u0085b", "\ufffe", 9223372036854775808.0, 18446744073709549568.0,
+			"\U0001f600", "/", "</script>", "%!(EXTRA)", -0.0, 1e300,
+		})
+	}
+	return MergeCLICase{
+		Target: val.JSON(target), Patch: val.JSON(patch),
+		Yaml: gen.Chance(t, "yaml", 35), Stdin: gen.Chance(t, "stdin", 20),
+		Bin: gen.Pick(t, "bin", []string{"jd-v2", "jd-v2", "jd-top"}),
+	}
+}
+
+func init() { Register("C12", "cli", checkC12CLI) }
+
+func TestC12CLI(t *testing.T) { RunRandom(t, "C12", "cli", genC12CLI, checkC12CLI) }
